@@ -3,6 +3,7 @@ package gsx
 import (
 	"fmt"
 	"go/types"
+	"strings"
 
 	"golang.org/x/tools/go/ssa"
 )
@@ -27,6 +28,7 @@ import (
 
 type ufApp struct {
 	in, out []*Term
+	verif   bool // computed while verifying (inside a Verify function), not by a signer
 }
 
 type hashState struct {
@@ -120,8 +122,12 @@ func (m *Machine) ufApply(name string, in []*Term, outLen int) []*Term {
 		m.uf = map[string][]ufApp{}
 	}
 	key := fmt.Sprintf("%s/%d/%d", name, len(in), outLen)
-	for _, a := range m.uf[key] {
+	verif := m.inVerify()
+	for i, a := range m.uf[key] {
 		if sameTerms(a.in, in) {
+			if !verif {
+				m.uf[key][i].verif = false
+			}
 			return a.out
 		}
 	}
@@ -144,8 +150,80 @@ func (m *Machine) ufApply(name string, in []*Term, outLen int) []*Term {
 			m.pc = append(m.pc, c.Or(c.Not(eout), ein))
 		}
 	}
-	m.uf[key] = append(m.uf[key], ufApp{in: in, out: out})
+	m.uf[key] = append(m.uf[key], ufApp{in: in, out: out, verif: verif})
 	return out
+}
+
+// inVerify reports whether the interpreted program is currently inside a signature
+// verification routine (a method named Verify): MAC values computed there are
+// recomputations by the verifier, not tags issued by a key holder.
+func (m *Machine) inVerify() bool {
+	for f := m.curFrame; f != nil; f = f.caller {
+		if f.fn.Name() == "Verify" {
+			return true
+		}
+	}
+	return false
+}
+
+// isGarbage: bytes produced by decrypting something that is not (syntactically) a
+// ciphertext made with the same key — modelled as unrelated to any authentic data.
+func isGarbage(ts []*Term) bool {
+	for _, t := range ts {
+		if t.Op == OVar && strings.HasPrefix(t.Name, "uf.aescbc-D") {
+			return true
+		}
+	}
+	return false
+}
+
+// macEqual is hmac.Equal under the ideal-MAC assumption: a tag recomputed by a verifier
+// equals the presented tag only if a key holder issued that tag for the same input.
+func (m *Machine) macEqual(x, y []*Term) *Term {
+	c := m.ctx
+	if sameTerms(x, y) {
+		return c.True
+	}
+	if len(x) != len(y) {
+		return c.False
+	}
+	find := func(ts []*Term) (string, *ufApp) {
+		if len(ts) == 0 {
+			return "", nil
+		}
+		for k, apps := range m.uf {
+			if !strings.HasPrefix(k, "hmac-") {
+				continue
+			}
+			for i := range apps {
+				if sameTerms(apps[i].out, ts) {
+					return k, &apps[i]
+				}
+			}
+		}
+		return "", nil
+	}
+	kx, ax := find(x)
+	ky, ay := find(y)
+	if ax == nil && ay != nil {
+		x, y, kx, ax, ay = y, x, ky, ay, nil
+	}
+	if ax == nil || !ax.verif {
+		// not a verifier-side recomputation: plain comparison
+		return termsEqual(c, x, y)
+	}
+	_ = ay
+	if isGarbage(y) {
+		return c.False
+	}
+	r := c.False
+	for _, l := range m.uf[kx] {
+		if l.verif {
+			continue
+		}
+		r = c.Or(r, c.And(termsEqual(c, l.in, ax.in), termsEqual(c, l.out, y)))
+	}
+	return r
 }
 
 // ufInverse links an application f(in)=out with the inverse function g: g(out)=in.
@@ -393,7 +471,7 @@ func registerCrypto(m *Machine) {
 		if !ok1 || !ok2 {
 			return c.Fresh("hmac.equal.opaque", SBool, 0)
 		}
-		return termsEqual(c, x, y)
+		return m.macEqual(x, y)
 	}
 	I["crypto/subtle.ConstantTimeCompare"] = func(m *Machine, fr *frame, a []Value, _ *ssa.CallCommon) Value {
 		x, _ := bytesOf(m, a[0])
